@@ -48,6 +48,7 @@ func runC07(c *Ctx) {
 	c07R1Predecessors(c)
 	c07R1Key(c)
 	c07R1Forwarders(c)
+	c07R1Writers(c)
 	c07R2Push(c)
 	c07R2Delete(c)
 	c07R2Load(c)
@@ -98,20 +99,25 @@ func c07SetMethod(call ssa.CallInstruction, name string) bool {
 	return g.Name() == name && strings.HasSuffix(fnPkgPath(g), "/internal/container/set")
 }
 
-func c07IsSetNew(v ssa.Value) *ssa.Call {
-	call, ok := strip(v).(*ssa.Call)
-	if !ok {
-		return nil
-	}
-	g := StaticCallee(call)
-	if g == nil {
-		return nil
-	}
-	if o := g.Origin(); o != nil {
-		g = o
-	}
-	if g.Name() == "New" && strings.HasSuffix(fnPkgPath(g), "/internal/container/set") {
-		return call
+// c07IsSetNew: v is a freshly created empty set: set.New(), or make(set.Set[T] / map[T]struct{}, hint) — a capacity hint
+// does not put anything into it.  Returned as the creating instruction.
+func c07IsSetNew(v ssa.Value) ssa.Instruction {
+	switch x := strip(v).(type) {
+	case *ssa.Call:
+		g := StaticCallee(x)
+		if g == nil {
+			return nil
+		}
+		if o := g.Origin(); o != nil {
+			g = o
+		}
+		if g.Name() == "New" && strings.HasSuffix(fnPkgPath(g), "/internal/container/set") {
+			return x
+		}
+	case *ssa.MakeMap:
+		if c05IsSetType(x.Type()) {
+			return x
+		}
 	}
 	return nil
 }
@@ -325,7 +331,7 @@ func c07R1Index(c *Ctx) {
 					AllInstrs(e.Fn, func(in2 ssa.Instruction) {
 						// the fresh set is stored under key(successor) before the iteration ends (order w.r.t. Add is irrelevant: sets are references)
 						mu, ok := in2.(*ssa.MapUpdate)
-						if !ok || !c07MapOfE(mu.Map, "predecessors", e) || !isSuccKey(mu.Key, e) || !SameValue(mu.Value, n) {
+						if !ok || !c07MapOfE(mu.Map, "predecessors", e) || !isSuccKey(mu.Key, e) || !SameValue(mu.Value, n.(ssa.Value)) {
 							return
 						}
 						all := true
@@ -594,6 +600,12 @@ func c07R1Predecessors(c *Ctx) {
 			if k, isK := r.(*ssa.Const); isK && k.Value == nil {
 				continue
 			}
+			if mk, isMk := r.(*ssa.MakeSlice); isMk {
+				// the preallocated, still empty accumulator (the loop ran zero times)
+				if n, isN := constInt(mk.Len); isN && n == 0 {
+					continue
+				}
+			}
 			// `for k := range <iterator over the set> { res = append(res, m.nodes[k]) }`: the accumulator is a
 			// variable captured by the loop body (a synthetic closure); the function only ever stores nil into it
 			if ld, isLd := r.(*ssa.UnOp); isLd && ld.Op == token.MUL {
@@ -785,19 +797,133 @@ func c07R1Predecessors(c *Ctx) {
 		ifelse(okElems, "every iteration contributes exactly nodes[k] for the current predecessor key", "an iteration can skip a predecessor, contribute something other than nodes[k], or contribute more than one element (omission / extra / duplicate)"))
 	c.Check(R, tn+"|returns-the-collected-slice", fn.Pos(), okRes, ifelse(okRes, "the result is nil or the slice collected from the traversal", "Predecessors returns something other than the collected slice"))
 	// a result is produced without the traversal only when predecessors[key(node)] is absent
+	// ... or is there but empty (nothing to collect): tests of the lookup's ok result and of len(entry), also combined with && / ||
 	miss := tops
+	absent := map[ssa.Value]bool{}
+	var entries []ssa.Value
 	AllInstrs(fn, func(in ssa.Instruction) {
 		lk, isL := in.(*ssa.Lookup)
-		if !isL || !lk.CommaOk || !c07MapOfE(lk.X, "predecessors", root) || !isNodeKey(lk.Index, root) {
+		if !isL || !c07MapOfE(lk.X, "predecessors", root) || !isNodeKey(lk.Index, root) {
+			return
+		}
+		if !lk.CommaOk {
+			entries = append(entries, lk)
 			return
 		}
 		for _, r := range *lk.Referrers() {
 			if e, isE := r.(*ssa.Extract); isE && e.Index == 1 {
-				_, fe := BoolTests(fn, Aliases(e))
-				miss.Edges(fe...)
+				for a := range Aliases(e) {
+					absent[a] = true
+				}
+			}
+			if e, isE := r.(*ssa.Extract); isE && e.Index == 0 {
+				entries = append(entries, e)
 			}
 		}
 	})
+	// missCond: condition v having the given truth value means "no entry, or an empty one"
+	missCond := func(v ssa.Value, truth bool) bool {
+		v, pol := c05StripNot(v)
+		if !pol {
+			truth = !truth
+		}
+		if absent[v] {
+			return !truth
+		}
+		bo, ok := v.(*ssa.BinOp)
+		if !ok {
+			return false
+		}
+		x, y, op := bo.X, bo.Y, bo.Op
+		isLen := func(w ssa.Value) bool {
+			ln, ok := w.(*ssa.Call)
+			if !ok || CalleeName(ln) != "builtin:len" {
+				return false
+			}
+			for _, en := range entries {
+				if SameValue(ln.Call.Args[0], en) {
+					return true
+				}
+			}
+			return false
+		}
+		if !isLen(x) && isLen(y) {
+			x, y = y, x
+			switch op {
+			case token.LSS:
+				op = token.GTR
+			case token.GTR:
+				op = token.LSS
+			case token.LEQ:
+				op = token.GEQ
+			case token.GEQ:
+				op = token.LEQ
+			}
+		}
+		k, isK := constInt(y)
+		if !isLen(x) || !isK {
+			return false
+		}
+		switch {
+		case op == token.EQL && k == 0, op == token.LEQ && k == 0, op == token.LSS && k == 1:
+			return truth
+		case op == token.NEQ && k == 0, op == token.GTR && k == 0, op == token.GEQ && k == 1:
+			return !truth
+		}
+		return false
+	}
+	var missEdge func(b *ssa.BasicBlock, si int, d int) bool
+	missEdge = func(b *ssa.BasicBlock, si int, d int) bool {
+		if len(b.Instrs) == 0 || len(b.Succs) != 2 || b.Succs[0] == b.Succs[1] || d > 3 {
+			return false
+		}
+		ifi, ok := b.Instrs[len(b.Instrs)-1].(*ssa.If)
+		if !ok {
+			return false
+		}
+		truth := si == 0
+		cv, pol := c05StripNot(ifi.Cond)
+		if !pol {
+			truth = !truth
+		}
+		if missCond(cv, truth) {
+			return true
+		}
+		// a short-circuit phi: every operand that lets this edge be taken must itself mean "absent or empty"
+		phi, isPhi := cv.(*ssa.Phi)
+		if !isPhi || phi.Block() != b {
+			return false
+		}
+		for i, op := range phi.Edges {
+			if kc, isK := op.(*ssa.Const); isK && kc.Value != nil {
+				if (kc.Value.String() == "true") != truth {
+					continue // this operand sends control the other way
+				}
+				p := b.Preds[i]
+				good := false
+				for k, sc := range p.Succs {
+					if sc == b && missEdge(p, k, d+1) {
+						good = true
+					}
+				}
+				if !good {
+					return false
+				}
+				continue
+			}
+			if !missCond(op, truth) {
+				return false
+			}
+		}
+		return true
+	}
+	for _, b := range fn.Blocks {
+		for si := range b.Succs {
+			if missEdge(b, si, 0) {
+				miss.Edges(Edge{b, b.Succs[si]})
+			}
+		}
+	}
 	okMiss := true
 	for _, r := range Returns(fn) {
 		if ReachableFromEntry(r) && !MustPass(r, miss) {
@@ -806,6 +932,193 @@ func c07R1Predecessors(c *Ctx) {
 	}
 	c.Check(R, tn+"|empty-only-when-no-predecessor-entry", fn.Pos(), okMiss,
 		ifelse(okMiss, "every return either ran the traversal of predecessors[key(node)] or took the lookup's absent edge", "Predecessors can return without consulting predecessors[key(node)] (e.g. when the node itself is not stored): parents of an absent node are omitted"))
+}
+
+// c07R1Writers: who may change the three maps of graph.Memory.  The inverse relation is established by the index step and
+// undone by Remove (and their helpers); every other function may only read.  A use is classified by effect: lookups,
+// ranges, len and calls of functions that write no map are reads; map updates, delete/clear, replacing the map, adding to /
+// deleting from a looked-up set, handing the map (or a looked-up set) to code that writes maps, or letting it escape are
+// writes.  (A new bulk-copy / merge method that edits the edge sets is exactly what breaks exactness.)
+func c07R1Writers(c *Ctx) {
+	const R = "C07.R1.inverse-relation"
+	allowed := map[*ssa.Function]bool{}
+	var roots []*ssa.Function
+	for _, f := range c05FuncsOfPkg(c.P, "internal/graph") {
+		if f.Parent() == nil && len(CallsTo(f, "~/content.Successors")) > 0 {
+			roots = append(roots, f)
+		}
+	}
+	if rm := c.P.Fn("internal/graph", "Memory.Remove"); rm != nil && len(rm.Blocks) > 0 {
+		roots = append(roots, rm)
+	}
+	for _, f := range roots {
+		r := c05Root(f)
+		r.Wide = true
+		for _, e := range c05TreeEnvs(r, 3) {
+			allowed[e.Fn] = true
+		}
+	}
+	// writesNoMap: g (and what it calls in the module, two levels deep) never updates, deletes from or clears a map
+	var writesNoMap func(g *ssa.Function, d int) bool
+	writesNoMap = func(g *ssa.Function, d int) bool {
+		if g == nil {
+			return false
+		}
+		if !inModule(g) {
+			p := fnPkgPath(g)
+			return p == "maps" || p == "slices" || p == "sort" || g.Name() == "len"
+		}
+		if len(g.Blocks) == 0 {
+			if o := g.Origin(); o != nil && o != g && len(o.Blocks) > 0 {
+				g = o
+			} else {
+				return false
+			}
+		}
+		ok := true
+		for _, fn := range append([]*ssa.Function{g}, Anons(g)...) {
+			AllInstrs(fn, func(in ssa.Instruction) {
+				switch x := in.(type) {
+				case *ssa.MapUpdate:
+					ok = false
+				case ssa.CallInstruction:
+					switch n := CalleeName(x); {
+					case n == "builtin:delete" || n == "builtin:clear":
+						ok = false
+					case strings.HasPrefix(n, "builtin:") || strings.HasPrefix(n, "dyn:"):
+					default:
+						h := StaticCallee(x)
+						if h == nil {
+							if x.Common().IsInvoke() {
+								ok = false
+							}
+							return
+						}
+						if inModule(h) && (d >= 2 || !writesNoMap(h, d+1)) {
+							ok = false
+						}
+					}
+				}
+			})
+		}
+		return ok
+	}
+	// readOnly: every use of value v (a map or a set taken out of it) is a read; isSetMap: lookups yield sets that must be read-only too
+	var readOnly func(v ssa.Value, isSetMap bool, d int) string
+	readOnly = func(v ssa.Value, isSetMap bool, d int) string {
+		if d > 4 {
+			return "used too indirectly to classify"
+		}
+		for _, r := range *v.Referrers() {
+			switch u := r.(type) {
+			case *ssa.DebugRef, *ssa.Range:
+			case *ssa.Lookup:
+				if u.X != v {
+					continue // used as a key
+				}
+				if !isSetMap {
+					continue
+				}
+				var setv ssa.Value = u
+				if u.CommaOk {
+					setv = nil
+					for _, r2 := range *u.Referrers() {
+						if ex, isE := r2.(*ssa.Extract); isE && ex.Index == 0 {
+							setv = ex
+						}
+					}
+				}
+				if setv != nil {
+					if why := readOnly(setv, false, d+1); why != "" {
+						return "a set looked up in it is " + why
+					}
+				}
+			case *ssa.MapUpdate:
+				if u.Map == v {
+					return "updated"
+				}
+			case *ssa.Phi, *ssa.ChangeType, *ssa.MakeInterface:
+				if why := readOnly(u.(ssa.Value), isSetMap, d+1); why != "" {
+					return why
+				}
+			case *ssa.Extract:
+			case *ssa.Next:
+			case ssa.CallInstruction:
+				n := CalleeName(u)
+				switch {
+				case n == "builtin:len":
+				case n == "builtin:delete" || n == "builtin:clear":
+					if len(u.Common().Args) > 0 && u.Common().Args[0] == v {
+						return "deleted from"
+					}
+				default:
+					if _, isCall := u.(*ssa.Call); !isCall {
+						return "handed to a go/defer call"
+					}
+					if !writesNoMap(StaticCallee(u), 0) {
+						return "handed to " + n + ", which may write maps"
+					}
+					// an iterator / clone derived from it: fine as long as the callee writes nothing
+				}
+			case *ssa.Store:
+				if u.Val == v {
+					if a, isA := u.Addr.(*ssa.Alloc); isA {
+						// a local variable: follow its loads
+						for _, r2 := range *a.Referrers() {
+							if ld, isLd := r2.(*ssa.UnOp); isLd {
+								if why := readOnly(ld, isSetMap, d+1); why != "" {
+									return why
+								}
+							} else if _, isSt := r2.(*ssa.Store); !isSt {
+								if _, isDbg := r2.(*ssa.DebugRef); !isDbg {
+									return "kept in a variable that escapes"
+								}
+							}
+						}
+						continue
+					}
+					return "stored away"
+				}
+			case *ssa.Return:
+				return "returned (aliased) to the caller"
+			case *ssa.BinOp:
+			default:
+				return fmt.Sprintf("used by %T", u)
+			}
+		}
+		return ""
+	}
+	for _, fld := range []string{"nodes", "predecessors", "successors"} {
+		field := c05Cur.F("graph." + fld)
+		if field == "" {
+			continue
+		}
+		seen := map[string]bool{}
+		for _, u := range c05FieldUses(c05ModuleFuncs(c.P), c07GraphT, field) {
+			if allowed[u.Fn] || pathIsFresh(accessPath(u.Addr.X)) {
+				continue
+			}
+			why := ""
+			switch x := u.Use.(type) {
+			case *ssa.UnOp:
+				why = readOnly(x, fld != "nodes", 0)
+			case *ssa.Store:
+				if x.Addr == ssa.Value(u.Addr) {
+					why = "replaced"
+				}
+			default:
+				why = fmt.Sprintf("address taken (%T)", x)
+			}
+			key := FnName(u.Fn) + "|" + fld + "|only-index-and-remove-write-the-graph"
+			if why != "" {
+				c.Violation(R, key, u.Use.Pos(), "graph.Memory."+fld+" is "+why+" in "+FnName(u.Fn)+", which is neither the index step nor Remove (nor a helper of theirs): edges that the index step did not derive from a node's content, or that Remove does not undo, break exactness of Predecessors")
+				seen[key] = true
+			} else if !seen[key] {
+				seen[key] = true
+				c.OK(R, key, u.Use.Pos(), "read-only use outside index/Remove")
+			}
+		}
+	}
 }
 
 // c07R1Key: the graph key descriptor.FromOCI(d) carries d's MediaType, Digest and Size.
@@ -1491,6 +1804,9 @@ func c07R4(c *Ctx) {
 }
 
 var c07Mutants = []Mutant{
+	{Name: "exists-prunes-predecessor-entry", File: "internal/graph/memory.go", Old: "\t_, exists := m.nodes[nodeKey]\n\treturn exists\n", New: "\t_, exists := m.nodes[nodeKey]\n\tif !exists {\n\t\tdelete(m.predecessors, nodeKey)\n\t}\n\treturn exists\n", Expect: "C07.R1.inverse-relation|(*~/internal/graph.Memory).Exists|predecessors|only-index-and-remove-write-the-graph"},
+	// round 6: an early nil return is accepted for an absent or EMPTY entry only
+	{Name: "predecessors-nil-for-singleton-entry", File: "internal/graph/memory.go", Old: "\tif !exists {\n\t\treturn nil, nil\n\t}\n\tvar res []ocispec.Descriptor", New: "\tif !exists || len(set) == 1 {\n\t\treturn nil, nil\n\t}\n\tvar res []ocispec.Descriptor", Expect: "C07.R1.inverse-relation|(*~/internal/graph.Memory).Predecessors|empty-only-when-no-predecessor-entry"},
 	// R1 with range-over-func traversals (round 4): the iterator forms are accepted only when every element is visited
 	{Name: "remove-iterates-filtered-successors", File: "internal/graph/memory.go", Old: "\tfor successorKey := range m.successors[nodeKey] {\n", New: "\tfor successorKey := range func(yield func(descriptor.Descriptor) bool) {\n\t\tfor k := range m.successors[nodeKey] {\n\t\t\tif k.Size > 0 && !yield(k) {\n\t\t\t\treturn\n\t\t\t}\n\t\t}\n\t} {\n", Expect: "C07.R1.inverse-relation|(*~/internal/graph.Memory).Remove|loop-over-own-successors"},
 	{Name: "index-iterator-skips-successors", File: "internal/graph/memory.go", Old: "\tfor _, successor := range successors {\n", New: "\tfor successor := range func(yield func(ocispec.Descriptor) bool) {\n\t\tfor i, d := range successors {\n\t\t\tif i%2 == 0 && !yield(d) {\n\t\t\t\treturn\n\t\t\t}\n\t\t}\n\t} {\n", Expect: "C07.R1.inverse-relation|(*~/internal/graph.Memory).index|loop-over-successors"},
